@@ -4,3 +4,4 @@ import PyhfModel.Spec
 import PyhfModel.Params
 import PyhfModel.Tensor
 import PyhfModel.Decl
+import PyhfModel.Infer
